@@ -281,6 +281,7 @@ spec fn bwv_post<P: AsRef<[u8]>, V>(st: Seq<State>, outs: Seq<Output<V>>, num_st
             && (!(kind is LeftmostFirst) ==> regs(n, item_pats(items), item_vals(items)))
             // all kinds: the trie facts from which the soundness of the leftmost stream follows (units lm_sound_*)
             && add_inv(n) && nfa_tree(n) && nfa_links(n, lm_of(kind)) && sound_facts(n)
+            && (!(kind is Standard) ==> lm_opt_facts(n))
             && values_are(n, items, items.len() as int)
             && (kind is Standard ==> searches_ok(st, outs, n))
             && (!(kind is Standard) ==> lm_searches_ok(st, outs, n))
@@ -293,7 +294,7 @@ proof fn lemma_bwv_post<P: AsRef<[u8]>, V>(nfa: NfaBuilder<u8, V>, st: Seq<State
         // from build_double_array
         da_safe(st), exists|idmap: Seq<u32>| bw_built(st, nfa, idmap),
         // the state count
-        nfa.states@.len() == num_states + 1, add_inv(nfa), nfa.match_kind == kind, sound_facts(nfa),
+        nfa.states@.len() == num_states + 1, add_inv(nfa), nfa.match_kind == kind, sound_facts(nfa), !(kind is Standard) ==> lm_opt_facts(nfa),
     ensures bwv_post(st, nfa.outputs@, num_states, items, kind),
 {
     reveal(bwv_post);
